@@ -39,8 +39,8 @@ pub fn world() -> World {
         ],
         rule: "one run = one terminal size, personality and history of ops (Frame, NoFrame, Clear, Recreate with optional resize and garbage, garbage pre-fill) or one scripted run_render session; after every frame whose commands are fully delivered the displayed screen is compared cell for cell with the drawn surface and with a from-scratch render of the same surface on a blank terminal; non-trivial = at least two frames or a clear/recreate/drop/resize happened; distinct = distinct hash of (op kinds, cell kinds drawn, delivery decisions)",
         runs: |_, tier| match tier {
-            Tier::Quick => 200_000,
-            Tier::Thorough => 6_000_000,
+            Tier::Quick => 600_000,
+            Tier::Thorough => 30_000_000,
         },
         features: &["wide-char", "image", "decorated-blank", "sentinel-face", "image-overlap", "shadow-draw", "drop-with-image"],
     }
